@@ -41,7 +41,16 @@ def edit(rng, src_root, clock):
     if k == 0 or not files:
         p = os.path.join(rng.pick(dirs), f"new{clock}"); open(p, "wb").write(rng.bytes(rng.range(0, 200))); os.utime(p, ns=(t, t)); return "create"
     if k == 1:
-        p = rng.pick(files); d = bytearray(open(p, "rb").read() or b"x"); d[0] ^= 0xFF; open(p, "wb").write(bytes(d)); os.utime(p, ns=(t, t)); return "modify-same-size"
+        p = rng.pick(files); d = bytearray(open(p, "rb").read() or b"x"); d[0] ^= 0xFF
+        old = os.lstat(p).st_mtime_ns
+        open(p, "wb").write(bytes(d))
+        if rng.chance(1, 2):
+            # same whole second as the version that was synced, different nanoseconds (a sub-second edit)
+            t2 = (old // 10**9) * 10**9 + ((old % 10**9) + 1 + rng.below(900_000_000)) % 10**9
+            if t2 <= old: t2 = old + 1
+            if t2 // 10**9 == old // 10**9:
+                os.utime(p, ns=(t2, t2)); return "modify-same-size-same-second"
+        os.utime(p, ns=(t, t)); return "modify-same-size"
     if k == 2:
         p = rng.pick(files); open(p, "ab").write(b"more"); os.utime(p, ns=(t, t)); return "modify-grow"
     if k == 3:
@@ -86,7 +95,9 @@ def run(tier="quick", seed=1, work=None, replay=None, focus="C18", ncases=None):
         for ci in range(n):
             case = os.path.join(work, f"k{ci}")
             A, B = os.path.join(case, "A"), os.path.join(case, "B")
-            opts = {"symlinks": rng.chance(1, 4), "extras": True}
+            # (names are kept valid UTF-8 here: serde cannot serialise other names, so sy — with a warning — does not save the
+            #  directory cache for such trees, and database paths are stored lossily; neither is what this stream is about)
+            opts = {"symlinks": rng.chance(1, 4), "extras": True, "utf8_only": True}
             src = es.gen_src(rng, opts); dst = es.gen_dst(rng, src, opts)
             for W in (A, B):
                 os.makedirs(os.path.join(W, "out")); open(os.path.join(W, "out", "sentinel.txt"), "wb").write(b"s")
@@ -129,6 +140,8 @@ def run(tier="quick", seed=1, work=None, replay=None, focus="C18", ncases=None):
                 if "--use-cache" in mech and ra_ == 0 and os.path.exists(cp):
                     try:
                         cj = json.load(open(cp))
+                        if not isinstance(cj, dict) or not isinstance(cj.get("directories"), dict):
+                            raise ValueError("the saved cache is not the expected JSON object: " + repr(cj)[:80])
                         keys = sorted(cj.get("directories", {}).keys())
                         if "." in keys: rep.oracle_fail("C18/root-key-cached", "the directory cache contains the root key '.' (cached scans would be substituted)", desc)
                         # model: keys after one update from the scan of this run
@@ -187,9 +200,32 @@ def run(tier="quick", seed=1, work=None, replay=None, focus="C18", ncases=None):
         # ---- the known stale-row history (O only): mtime and size restored with different content, no sync in between
         for ci in range(2 if tier == "quick" else 10):
             stale_row_history(rep, contents, rng, os.path.join(work, f"stale{ci}"), seed, ci)
+            subsecond_history(rep, contents, rng, os.path.join(work, f"subsec{ci}"), seed, ci)
     finally:
         drv.close()
     return rep.to_dict()
+
+def subsecond_history(rep, contents, rng, case, seed, ci):
+    """an edit that keeps the size and lands in the same whole second as the synced version (different nanoseconds):
+    the database row must not match"""
+    A, B = os.path.join(case, "A"), os.path.join(case, "B")
+    sec = BASE_T + 7000 + ci; t1 = sec * 10**9 + rng.range(1, 400) * 10**6; t2 = sec * 10**9 + rng.range(500, 990) * 10**6
+    n = rng.range(1, 3000); c1 = rng.bytes(n); c2 = bytes([c1[0] ^ 0xFF]) + c1[1:]
+    for W in (A, B):
+        os.makedirs(os.path.join(W, "src", "sub")); os.makedirs(os.path.join(W, "dst"))
+        for rel in ("f", "sub/g"):
+            p = os.path.join(W, "src", rel); open(p, "wb").write(c1); os.utime(p, ns=(t1, t1))
+    fa = ["--checksum", "--checksum-db", "true"]; fb = ["--checksum"]
+    for W, f in ((A, fa), (B, fb)): run_sy([os.path.join(W, "src"), os.path.join(W, "dst"), "--json"] + f, W)
+    for W in (A, B):
+        p = os.path.join(W, "src", "sub", "g"); open(p, "wb").write(c2); os.utime(p, ns=(t2, t2))
+    run_sy([os.path.join(A, "src"), os.path.join(A, "dst"), "--json"] + fa, A); run_sy([os.path.join(B, "src"), os.path.join(B, "dst"), "--json"] + fb, B)
+    da, db = open(os.path.join(A, "dst", "sub", "g"), "rb").read(), open(os.path.join(B, "dst", "sub", "g"), "rb").read()
+    rep.tag("subsecond-history"); rep.case(("subsecond", ci, n), True)
+    if da != db:
+        rep.oracle_fail("C18/destination-differs", "after an edit in the same whole second (different nanoseconds, same size) the world with the checksum database keeps the old content, the world without it is updated",
+                        {"case": ci, "seed": seed, "with": fa, "without": fb, "history": [["create f, sub/g mtime t1"], [f"sub/g: same size, other content, mtime same second (+{(t2 - t1) // 10**6} ms)"]]})
+    shutil.rmtree(case, ignore_errors=True)
 
 def stale_row_history(rep, contents, rng, case, seed, ci):
     A, B = os.path.join(case, "A"), os.path.join(case, "B")
